@@ -2,9 +2,11 @@ import DoitModel.Proofs.C08Conf1
 /-! # C08 (I10) with dynamic `calc_dep` edges, step 1: the relational denotation `Dyn.DenOf`
 
 The dependency set of a task is no longer read off the task table: the calc_deps of `n` are the least set containing
-`calcDep n` and closed under what its executed / up-to-date members deliver (`values['calc_dep']`), and the task_deps
-are `taskDep n` plus what those members deliver (`values['task_dep']`, owners of `values['file_dep']`).  Which members
-are executed / up-to-date is given by their own outcome — the derivation is bottom-up, and no acyclicity hypothesis is
+`calcDep n` and closed under what its members deliver (`values['calc_dep']`), and the task_deps are `taskDep n` plus
+what those members deliver (`values['task_dep']`, owners of `values['file_dep']`).  What a member `c` delivers is
+`delivOf inp c d` (`Model/RunData.lean`) for its own outcome `d`: `calcRes c` when it was executed successfully or is
+up-to-date, `calcResFail c` when it failed DURING its execution (`startedFail`: `_process_calc_dep_results` does not
+look at `run_status`), nothing otherwise.  The outcome of the members is their own derived outcome — the derivation is bottom-up, and no acyclicity hypothesis is
 needed: on a cyclic graph no derivation exists.  `Dyn.DenOf` is functional (`DenOf.functional`), depends on the task
 table and the oracle only (`DenOf.same`), and coincides with `Run.DenOf` on graphs without calc_dep (`DenOf_noCalc`).
 
@@ -14,13 +16,13 @@ namespace DoitModel.Run.Dyn
 /-- the calc_deps of `n` when the outcomes are `dd` -/
 inductive CalcOf (inp : RunInput) (dd : Name → Den) (n : Name) : Name → Prop
   | static {c : Name} : c ∈ inp.calcDep n → CalcOf inp dd n c
-  | deliv {c x : Name} : CalcOf inp dd n c → (dd c).rs.good = true → x ∈ (inp.calcRes c).calcs → CalcOf inp dd n x
+  | deliv {c x : Name} : CalcOf inp dd n c → x ∈ (delivOf inp c (dd c)).calcs → CalcOf inp dd n x
 
-/-- every dependency `select_task(n)` looks at in its first pass: task_deps, calc_deps, and what the executed /
-    up-to-date calc_deps deliver as task_deps -/
+/-- every dependency `select_task(n)` looks at in its first pass: task_deps, calc_deps, and what the calc_deps
+    deliver as task_deps (`delivOf`) -/
 def DepOf (inp : RunInput) (dd : Name → Den) (n x : Name) : Prop :=
   x ∈ inp.taskDep n ∨ CalcOf inp dd n x ∨
-  ∃ c, CalcOf inp dd n c ∧ (dd c).rs.good = true ∧ (x ∈ (inp.calcRes c).tasks ∨ x ∈ (inp.calcRes c).files)
+  ∃ c, CalcOf inp dd n c ∧ (x ∈ (delivOf inp c (dd c)).tasks ∨ x ∈ (delivOf inp c (dd c)).files)
 
 theorem stage1L_static (inp : RunInput) (dd : Name → Den) (n : Name) : stage1L inp dd (inp.taskDep n) n = stage1 inp dd n := rfl
 theorem combineL_static (inp : RunInput) (dd : Name → Den) (n : Name) :
@@ -71,16 +73,16 @@ theorem CalcOf.transfer {inp : RunInput} {dd dd' : Name → Den} {n : Name}
     CalcOf inp dd' n x := by
   induction hx with
   | static hc => exact CalcOf.static hc
-  | deliv hc hg hm ih => exact CalcOf.deliv ih (by rw [← h _ hc ih]; exact hg) hm
+  | deliv hc hm ih => exact CalcOf.deliv ih (by rw [← h _ hc ih]; exact hm)
 
 theorem DepOf.transfer {inp : RunInput} {dd dd' : Name → Den} {n : Name}
     (h : ∀ c, CalcOf inp dd n c → CalcOf inp dd' n c → dd c = dd' c) {x : Name} (hx : DepOf inp dd n x) :
     DepOf inp dd' n x := by
-  rcases hx with a | a | ⟨c, hc, hg, hm⟩
+  rcases hx with a | a | ⟨c, hc, hm⟩
   · exact Or.inl a
   · exact Or.inr (Or.inl (a.transfer h))
   · have hc' := hc.transfer h
-    exact Or.inr (Or.inr ⟨c, hc', by rw [← h c hc hc']; exact hg, hm⟩)
+    exact Or.inr (Or.inr ⟨c, hc', by rw [← h c hc hc']; exact hm⟩)
 
 theorem DepOf.ofCalc {inp : RunInput} {dd : Name → Den} {n c : Name} (h : CalcOf inp dd n c) : DepOf inp dd n c :=
   Or.inr (Or.inl h)
@@ -111,26 +113,62 @@ theorem DenOf.functional {inp : RunInput} {n : Name} {a b : Den} (ha : DenOf inp
       have h1' : stage1L inp dd' L' n = .run := by rw [← stage1L_congr sub eT]; exact h1
       exact ihS h1 d hd (hS' h1' d hd)
 
-/-- the fields of the input the denotation reads: those of `SameTasks` and what calc tasks deliver -/
+/-- the fields of the input the denotation reads: those of `SameTasks` and what calc tasks deliver (executed
+    successfully: `calcRes`; failed during execution: `calcResFail`) -/
 structure SameTasksC (a b : RunInput) : Prop where
   base : SameTasks a b
   calcRes : a.calcRes = b.calcRes
+  calcResFail : a.calcResFail = b.calcResFail
 
-theorem SameTasksC.refl (a : RunInput) : SameTasksC a a := ⟨SameTasks.refl a, rfl⟩
-theorem SameTasksC.symm {a b : RunInput} (h : SameTasksC a b) : SameTasksC b a := ⟨h.1.symm, h.2.symm⟩
+theorem SameTasksC.refl (a : RunInput) : SameTasksC a a := ⟨SameTasks.refl a, rfl, rfl⟩
+theorem SameTasksC.symm {a b : RunInput} (h : SameTasksC a b) : SameTasksC b a := ⟨h.1.symm, h.2.symm, h.3.symm⟩
+
+theorem delivOf_same {a b : RunInput} (h : SameTasksC a b) (c : Name) (d : Den) : delivOf a c d = delivOf b c d := by
+  unfold delivOf startedFail
+  rw [h.calcRes, h.calcResFail, h.base.statusOf, h.base.argsOk]
+
+theorem delivOf_cases (inp : RunInput) (c : Name) (d : Den) :
+    (d.rs.good = true ∧ delivOf inp c d = inp.calcRes c) ∨
+    (d.rs.good = false ∧ startedFail inp c d = true ∧ delivOf inp c d = inp.calcResFail c) ∨
+    (delivOf inp c d = {}) := by
+  unfold delivOf
+  by_cases h1 : d.rs.good = true
+  · exact Or.inl ⟨h1, by simp [h1]⟩
+  · by_cases h2 : startedFail inp c d = true
+    · exact Or.inr (Or.inl ⟨by simpa using h1, h2, by simp [h1, h2]⟩)
+    · exact Or.inr (Or.inr (by simp [h1, h2]))
+
+theorem delivOf_bot (inp : RunInput) (c : Name) : delivOf inp c .bot = {} := by
+  simp [delivOf, startedFail, Den.rs, RS.good]
+
+theorem startedFail_rs {inp : RunInput} {c : Name} {d : Den} (h : startedFail inp c d = true) : d.rs = .fail := by
+  cases d with
+  | fail k => rfl
+  | _ => simp [startedFail] at h
+
+theorem delivOf_startedFail {inp : RunInput} {c : Name} {d : Den} (hs : startedFail inp c d = true) :
+    delivOf inp c d = inp.calcResFail c := by
+  simp [delivOf, startedFail_rs hs, hs, RS.good]
+
+theorem delivOf_fail {inp : RunInput} {c : Name} {d : Den} (hg : d.rs.good = false) (hs : startedFail inp c d = true) :
+    delivOf inp c d = inp.calcResFail c := by
+  simp [delivOf, hg, hs]
+
+theorem delivOf_good {inp : RunInput} {c : Name} {d : Den} (hg : d.rs.good = true) : delivOf inp c d = inp.calcRes c := by
+  simp [delivOf, hg]
 
 theorem CalcOf.same {a b : RunInput} (h : SameTasksC a b) {dd : Name → Den} {n x : Name} (hx : CalcOf a dd n x) :
     CalcOf b dd n x := by
   induction hx with
   | static hc => exact CalcOf.static (by rw [← h.base.calcDep]; exact hc)
-  | deliv _ hg hm ih => exact CalcOf.deliv ih hg (by rw [← h.calcRes]; exact hm)
+  | deliv _ hm ih => exact CalcOf.deliv ih (by rw [← delivOf_same h]; exact hm)
 
 theorem DepOf.same {a b : RunInput} (h : SameTasksC a b) {dd : Name → Den} {n x : Name} (hx : DepOf a dd n x) :
     DepOf b dd n x := by
-  rcases hx with c | c | ⟨c, hc, hg, hm⟩
+  rcases hx with c | c | ⟨c, hc, hm⟩
   · exact Or.inl (by rw [← h.base.taskDep]; exact c)
   · exact Or.inr (Or.inl (c.same h))
-  · exact Or.inr (Or.inr ⟨c, hc.same h, hg, by rw [← h.calcRes]; exact hm⟩)
+  · exact Or.inr (Or.inr ⟨c, hc.same h, by rw [← delivOf_same h]; exact hm⟩)
 
 theorem stage1L_same {a b : RunInput} (h : SameTasks a b) (dd : Name → Den) (L : List Name) (n : Name) :
     stage1L a dd L n = stage1L b dd L n := by
@@ -157,7 +195,7 @@ theorem CalcOf.noCalc {inp : RunInput} (hnc : NoCalc inp) {dd : Name → Den} {n
     False := by
   induction h with
   | static hc => rw [hnc] at hc; cases hc
-  | deliv _ _ _ ih => exact ih
+  | deliv _ _ ih => exact ih
 
 theorem DepOf_noCalc {inp : RunInput} (hnc : NoCalc inp) (dd : Name → Den) (n x : Name) :
     DepOf inp dd n x ↔ x ∈ inp.taskDep n := by
